@@ -789,6 +789,23 @@ def seeds() -> Dict[str, List[bytes]]:
     _SEEDS['der'] = [r.export_private_key('pkcs8-der'),
                      e.export_public_key('pkcs8-der'),
                      r.export_public_key('pkcs1-der')]
+    # an X.509 certificate made with PyCA (asyncssh's own X.509 support
+    # needs pyOpenSSL, which may be missing: the import paths must then
+    # still fail with their documented error)
+    import datetime
+    from cryptography import x509
+    from cryptography.hazmat.primitives import hashes, serialization
+    from cryptography.hazmat.primitives.asymmetric import ec
+    from cryptography.x509.oid import NameOID
+    xkey = ec.derive_private_key(0x1234567, ec.SECP256R1())
+    name = x509.Name([x509.NameAttribute(NameOID.COMMON_NAME, 'c10')])
+    xcert = x509.CertificateBuilder().subject_name(name).issuer_name(name) \
+        .public_key(xkey.public_key()).serial_number(7) \
+        .not_valid_before(datetime.datetime(2020, 1, 1)) \
+        .not_valid_after(datetime.datetime(2040, 1, 1)) \
+        .sign(xkey, hashes.SHA256())
+    _SEEDS['x509'] = [xcert.public_bytes(serialization.Encoding.DER),
+                      xcert.public_bytes(serialization.Encoding.PEM)]
     from asyncssh.sftp import SFTPAttrs, SFTPName
     attrs = SFTPAttrs(size=5, uid=1, gid=2, permissions=0o644, atime=1,
                       mtime=2, extended=[(b'a', b'b')])
@@ -841,16 +858,17 @@ def run_parser(case) -> CaseResult:
     if case['seed'] is None:
         data = bytes(case['raw'])
     else:
-        pool = {'import_public_key': sd['pub'] + sd['cert'],
+        pool = {'import_public_key': sd['pub'] + sd['cert'] + sd['x509'],
                 'import_private_key': sd['priv'],
-                'import_certificate': sd['cert'] + sd['pub'],
+                'import_certificate': sd['cert'] + sd['pub'] + sd['x509'],
                 'decode_ssh_public_key': sd['blob'],
                 'decode_ssh_certificate': sd['blob'],
                 'der_decode': sd['der'], 'sftp_attrs': sd['attrs'],
                 'sftp_name': sd['attrs'], 'packet': sd['blob'] + sd['sig'],
                 'verify': sd['sig'], 'known_hosts': sd['text'],
                 'authorized_keys': sd['text'], 'sshsig': sd['sig'],
-                'read_lists': sd['priv'] + sd['pub'] + sd['cert']}[target]
+                'read_lists': sd['priv'] + sd['pub'] + sd['cert'] +
+                sd['x509']}[target]
         data = mutate(pool[case['seed'] % len(pool)], case['edits'])
 
     labels = {'target:' + target, 'mutated' if case['seed'] is not None
